@@ -68,7 +68,8 @@ func (x *Extractor) normGuard(cond ast.Expr) string {
 	return s
 }
 
-var reSubLen = regexp.MustCompile(`^len\(x\.([A-Za-z]+)\.[A-Za-z]+\)\+len\(x\.([A-Za-z]+)\.[A-Za-z]+\) > 0$`)
+var reSubLen = regexp.MustCompile(`^len\(x\.([A-Za-z]+)\.[A-Za-z]+\)(\+len\(x\.([A-Za-z]+)\.[A-Za-z]+\))+ > 0$`)
+var reSubLenTerm = regexp.MustCompile(`len\(x\.([A-Za-z]+)\.[A-Za-z]+\)`)
 
 func classifyGuard(g, field string) string {
 	f := "x." + field
@@ -106,8 +107,14 @@ func classifyGuard(g, field string) string {
 	case "hasData[" + f + "]":
 		return "isTrueOrData"
 	}
-	if m := reSubLen.FindStringSubmatch(g); m != nil && m[1] == field && m[2] == field {
-		return "anySubLen"
+	if reSubLen.MatchString(g) {
+		all := true
+		for _, m := range reSubLenTerm.FindAllStringSubmatch(g, -1) {
+			all = all && m[1] == field
+		}
+		if all {
+			return "anySubLen"
+		}
 	}
 	return "?unknown: " + g
 }
